@@ -210,13 +210,13 @@ example : (init exG exX0).map (fun s0 => diffVec exG s0 [1, 2]) = some [(1, 2)] 
 section controller
 open CogentModel.Ctl
 
-/-- **controller_consistent_partial**: after any history of `assign` and (arbitrarily nested)
-`updates_postponed` blocks that are all left *normally*, whenever no block is open, updates are not
+/-- **controller_consistent**: after ANY history of `assign` and arbitrarily nested
+`updates_postponed` blocks — left normally or by an exception (`Op.xexit`; the context manager's
+`finally:` restores the flag and propagates) — whenever no block is open, updates are not
 suspended, nothing is marked dirty and every definition's value is what its rule gives from the
-current settings / argument values.  (Blocks left by an exception are excluded: see
-`controller_counter` — that is the genuine defect C07-postponed-block-exception….) -/
-theorem controller_consistent_partial (g : Ctl.Graph V) (hwf : Ctl.WF g) (setting : Nat → V)
-    (hist : List (Op V)) (hno : ∀ o, o ∈ hist → o ≠ Op.xexit) :
+current settings / argument values. -/
+theorem controller_consistent (g : Ctl.Graph V) (hwf : Ctl.WF g) (setting : Nat → V)
+    (hist : List (Op V)) :
     Ctl.Inv g (Ctl.run g (Ctl.init g setting) hist) ∧
     ((Ctl.run g (Ctl.init g setting) hist).stack = [] →
       (Ctl.run g (Ctl.init g setting) hist).suspended = false ∧
@@ -236,8 +236,7 @@ theorem controller_consistent_partial (g : Ctl.Graph V) (hwf : Ctl.WF g) (settin
     | nil => exact h0
     | cons o os ih =>
       simp only [Ctl.run]
-      apply ih (fun o' ho' => hno o' (by simp [ho']))
-      exact step_inv g hwf s0 o h0 (hno o (by simp))
+      exact ih _ (step_inv g hwf s0 o h0)
   refine ⟨hI, fun hst => ?_⟩
   have hs := hI.stack
   rw [hst] at hs
@@ -245,12 +244,51 @@ theorem controller_consistent_partial (g : Ctl.Graph V) (hwf : Ctl.WF g) (settin
   refine ⟨hsusp, hI.clean hsusp, fun k hk => hI.j k hk ?_⟩
   rw [hI.clean hsusp]; simp
 
-/-- the mirrored model does NOT satisfy the full statement: a block left by an exception leaves
-updates suspended, and a later assignment never reaches the derived value. -/
-theorem controller_counter :
+/-- the settings the values are consistent with are the last assigned ones: `assign k v` stores
+`v`, no other operation touches a setting -/
+theorem controller_setting_last_assigned (g : Ctl.Graph V) (s : Ctl.St V) (k : Nat) (v : V) :
+    (Ctl.step g s (.assign k v)).setting k = v ∧
+    (∀ j, j ≠ k → (Ctl.step g s (.assign k v)).setting j = s.setting j) ∧
+    (Ctl.step g s .enter).setting = s.setting ∧ (Ctl.step g s .exit).setting = s.setting ∧
+    (Ctl.step g s .xexit).setting = s.setting := by
+  have hloop : ∀ (ks : List Nat) (t : Ctl.St V), (Ctl.updateLoop g ks t).setting = t.setting := by
+    intro ks
+    induction ks with
+    | nil => intro t; rfl
+    | cons a ks ih =>
+      intro t
+      unfold Ctl.updateLoop
+      split
+      · rw [ih]; exact (updateOne_fields g t a).1
+      · exact ih t
+  have hui : ∀ t : Ctl.St V, (Ctl.updateIntermediate g t).setting = t.setting := by
+    intro t
+    unfold Ctl.updateIntermediate
+    split
+    · rfl
+    · exact hloop _ t
+  refine ⟨?_, ?_, rfl, ?_, ?_⟩
+  · show (Ctl.updateIntermediate g _).setting k = v
+    rw [hui]; simp [Ctl.upd]
+  · intro j hj
+    show (Ctl.updateIntermediate g _).setting j = _
+    rw [hui]; simp [Ctl.upd, hj]
+  · unfold Ctl.step
+    cases s.stack with
+    | nil => rfl
+    | cons o r => simp only []; rw [hui]
+  · unfold Ctl.step
+    cases s.stack with
+    | nil => rfl
+    | cons o r => simp only []; rw [hui]
+
+/-- non-vacuity, including a block left by an exception followed by a further assignment: the
+derived values follow (this is the history that was the defect before updates_postponed got its
+try/finally) -/
+example :
     let g : Ctl.Graph Int := [.leaf, .derived [0] (fun l => l.getD 0 0 + 1)]
     let s := Ctl.run g (Ctl.init g (fun _ => 1)) [.enter, .assign 0 5, .xexit, .assign 0 7]
-    s.stack = [] ∧ s.suspended = true ∧ s.setting 0 = 7 ∧ s.values 1 = 2 := by
+    s.stack = [] ∧ s.suspended = false ∧ s.setting 0 = 7 ∧ s.values 1 = 8 := by
   decide
 
 example : Ctl.WF ([.leaf, .leaf, .derived [0, 1] (fun l => l.foldl (· + ·) 0), .derived [2, 0] (fun l => l.foldl (· * ·) 1)] : Ctl.Graph Int) := by
@@ -267,11 +305,6 @@ example :
     s.stack = [] ∧ (List.range 4).map s.values = [3, 2, 5, 15] := by
   decide
 
-/- FULL STATEMENT (not proved — it is false for the code as written):
-   the same conclusion for histories that may contain `Op.xexit` (a `with lf.updates_postponed():`
-   block left by an exception).  `controller_counter` is the model-level witness; the real-code
-   witness is replayed on every run (known finding C07-postponed-block-exception-leaves-updates-suspended;
-   proposed repair fixes/C07-postponed-block-exception.patch wraps the `yield` in try/finally). -/
 end controller
 
 end CogentModel.C07
